@@ -5,12 +5,36 @@ From Sekai Require Import Base.Prelude Base.Dec Model.Filters Model.Fees Model.C
 (* one transaction through the real ante handler (and, when admitted, the real handlers) *)
 Inductive c14_case : Type :=
 | C14Tx (c : fcfg) (accts : list (string * (Z * bool))) (bals : list ((string * string) * Z))
-        (watch dens : list string) (t : tx) (o : tx_obs).
+        (watch dens : list string) (t : tx) (o : tx_obs)
+(* the freeze lists of [c] are first changed by passed TokensWhiteBlackChange proposals applied
+   through the real proposal handler (each paired with the black / white list read back from
+   the keeper afterwards), then the transaction runs *)
+| C14Gov (c : fcfg) (props : list (wbprop * (list string * list string)))
+         (accts : list (string * (Z * bool))) (bals : list ((string * string) * Z))
+         (watch dens : list string) (t : tx) (o : tx_obs).
+
+Definition cfg_with_bw (c : fcfg) (t : bwlist) : fcfg :=
+  mkCfg (with_bw (c_filt c) t) (c_tokens c) (c_foreign c) (c_min_fee c) (c_max_fee c) (c_exec c) (c_custody c) (c_min_reward c).
+Definition strs_eqb (a b : list string) : bool := list_eqb String.eqb a b.
+(* the model's lists after each proposal vs. the lists read back from the real keeper *)
+Fixpoint props_match (t : bwlist) (ps : list (wbprop * (list string * list string))) : option bwlist :=
+  match ps with
+  | [] => Some t
+  | (p, (ob, ow)) :: r =>
+      let t' := apply_prop t p in
+      if (strs_eqb (bw_black t') ob && strs_eqb (bw_white t') ow)%bool then props_match t' r else None
+  end.
 
 Definition c14_case_matches (sh : shape) (wired : wiring) (k : c14_case) : bool :=
   match k with
   | C14Tx c accts bals ws ds t o =>
       match txs_match sh wired c ws ds (init_st accts bals []) [(t, o)] with Some _ => true | None => false end
+  | C14Gov c props accts bals ws ds t o =>
+      match props_match (f_bw (c_filt c)) props with
+      | None => false
+      | Some bw' =>
+          match txs_match sh wired (cfg_with_bw c bw') ws ds (init_st accts bals []) [(t, o)] with Some _ => true | None => false end
+      end
   end.
 Fixpoint c14_mismatches_from (sh : shape) (wired : wiring) (n : nat) (cs : list c14_case) : list nat :=
   match cs with [] => [] | k :: r => if c14_case_matches sh wired k then c14_mismatches_from sh wired (S n) r
@@ -40,9 +64,8 @@ Definition native_only (f : filt) (t : tx) : bool :=
                                           && Nat.leb (List.length a) 1)%bool
                         | _ => false end) (t_msgs t))%bool.
 
-Definition c14_clauses (k : c14_case) : list string :=
-  match k with
-  | C14Tx c accts bals ws ds t o =>
+Definition c14_tx_clauses (c : fcfg) (accts : list (string * (Z * bool))) (bals : list ((string * string) * Z))
+           (ws ds : list string) (t : tx) (o : tx_obs) : list string :=
       let f := c_filt c in
       let ms := t_msgs t in
       let admitted := ((o_class o =? 0) || (o_class o =? 2) || (o_class o =? 4))%bool in
@@ -82,7 +105,44 @@ Definition c14_clauses (k : c14_case) : list string :=
             && forallb (fun x => 0 <? snd x) (t_fee t) && Nat.leb (List.length (t_fee t)) 1
             && negb (f_nvals f <? f_minvals f))%bool
         then ["native_blocked"%string] else []
-      else []
+      else [].
+
+(* GOVERNANCE of the freeze lists, from the property's own words, as sets: after a passed "add"
+   proposal EVERY named token is on the list, after "remove" NONE of the named ones remains, the
+   tokens not named keep their status, and the other list is untouched *)
+Definition mem (x : string) (l : list string) : bool := existsb (String.eqb x) l.
+Definition same_set_except (named before after : list string) : bool :=
+  (forallb (fun x => (mem x named || mem x after)%bool) before
+   && forallb (fun x => (mem x named || mem x before)%bool) after)%bool.
+Definition prop_ok (before after : list string) (p : wbprop) : bool :=
+  ((if p_add p then forallb (fun x => mem x after) (p_tokens p) else forallb (fun x => negb (mem x after)) (p_tokens p))
+   && same_set_except (p_tokens p) before after)%bool.
+Definition prop_name (p : wbprop) : string :=
+  ((if p_add p then "add-to-" else "remove-from-") ++ (if p_black p then "blacklist" else "whitelist"))%string.
+(* the lists the proposals are meant to produce (set union / difference), used to judge the
+   transaction that follows *)
+Definition spec_apply (t : bwlist) (p : wbprop) : bwlist :=
+  let upd := fun l => if p_add p then l ++ filter (fun x => negb (mem x l)) (p_tokens p)
+                      else filter (fun x => negb (mem x (p_tokens p))) l in
+  if p_black p then mkBW (upd (bw_black t)) (bw_white t) else mkBW (bw_black t) (upd (bw_white t)).
+Fixpoint gov_clauses (t : bwlist) (ps : list (wbprop * (list string * list string))) : list string * bwlist :=
+  match ps with
+  | [] => ([], t)
+  | (p, (ob, ow)) :: r =>
+      let ok := if p_black p then (prop_ok (bw_black t) ob p && same_set_except [] (bw_white t) ow)%bool
+                else (prop_ok (bw_white t) ow p && same_set_except [] (bw_black t) ob)%bool in
+      let '(rest, t') := gov_clauses (mkBW ob ow) r in
+      (flag ok ("freeze_list_governance:" ++ prop_name p)%string ++ rest, t')
+  end.
+Fixpoint spec_lists (t : bwlist) (ps : list (wbprop * (list string * list string))) : bwlist :=
+  match ps with [] => t | (p, _) :: r => spec_lists (spec_apply t p) r end.
+
+Definition c14_clauses (k : c14_case) : list string :=
+  match k with
+  | C14Tx c accts bals ws ds t o => c14_tx_clauses c accts bals ws ds t o
+  | C14Gov c props accts bals ws ds t o =>
+      fst (gov_clauses (f_bw (c_filt c)) props)
+      ++ c14_tx_clauses (cfg_with_bw c (spec_lists (f_bw (c_filt c)) props)) accts bals ws ds t o
   end.
 
 Fixpoint c14_violations_from (n : nat) (cs : list c14_case) : list (nat * list string) :=
